@@ -32,7 +32,9 @@ def run():
             (Path(tmp) / "secret.html").write_text("OUTSIDE")
             (Path(tmp) / "root_private" / "secret.html").write_text("OUTSIDE")
             abs_secret = str(Path(tmp) / "secret.html")
-            names = NAMES + [abs_secret, "／" + abs_secret.lstrip("/")]
+            # exactly two leading slashes are a different pathlib anchor ('//'), still an absolute name
+            names = NAMES + [abs_secret, "／" + abs_secret.lstrip("/"), "/" + abs_secret, "/" + str(Path(tmp) / "secret.liquid"), "/" + str(Path(tmp) / "secret"),
+                             "//" + abs_secret]
             makers = {}
             for cname in ("FileSystemLoader", "CachingFileSystemLoader"):
                 cls = getattr(loaders_mod, cname, None)
